@@ -1,0 +1,11 @@
+// Copyright (C) 2026 Storj Labs, Inc.
+// See LICENSE for copying information.
+
+//go:build verif
+
+package drpcwire
+
+// VerifBufCap reports the capacity of the reader's internal buffer. It exists
+// only under the verif build tag so that external checkers can observe the
+// reader's memory bound.
+func (r *Reader) VerifBufCap() int { return cap(r.buf) }
